@@ -158,7 +158,10 @@ static int upipe_row_join_control(struct upipe *upipe, int command,
 
 static void upipe_row_join_free(struct upipe *upipe)
 {
+    struct upipe_row_join *upipe_row_join = upipe_row_join_from_upipe(upipe);
     upipe_throw_dead(upipe);
+    /* a picture that did not get all its rows */
+    uref_free(upipe_row_join->output_uref);
     upipe_row_join_clean_ubuf_mgr(upipe);
     upipe_row_join_clean_urefcount(upipe);
     upipe_row_join_clean_output(upipe);
